@@ -823,6 +823,66 @@ def replay_angc_offset():
     return replay
 
 
+def unit_ind_clip_nan(ctx):
+    """cider_ind_clip is the last stage before the spline index is cast to an int and used to address the coefficient table.  The index routines before it take
+    log(a / alpha0 + 1): for exponent parameters the settings accept (a0 small against tau_mul) the raw exponent of a low-tau point is negative and the index is NaN.
+    ensures, for EVERY element including NaN: after the call 0 <= di_g[g] < sizem1 — in IEEE arithmetic every ordered comparison with NaN is false, so a NaN
+    element has to be caught by the way the comparisons are written.  Decided by executing the C routine with the element = NaN under exactly that rule
+    (comparisons involving NaN are concretely false, != true; arithmetic propagates NaN): the value finally stored in di_g[g] and derivi_g[g] is NaN-free."""
+    from cvc import cparse
+    from cvc.csym import CSym, Arr, Ptr, CUnsupported
+    rel = "mod_cider/cider_coefs.c"
+    fq = ["lib/%s:cider_ind_clip" % rel]
+    NAN = tm.var("NaN")
+    has_nan = lambda v: isinstance(v, tm.T) and NAN in tm.subterms(v).values()
+
+    class NanSym(CSym):
+        def read(self, p):
+            v = CSym.read(self, p)
+            if isinstance(v, tm.T) and v.op == "f" and v.args[0] == "rd:di_g":
+                return NAN
+            return v
+
+        def arith(self, op, a, b, int_div=False):
+            if op in ("<", "<=", ">", ">=", "==", "!=") and (has_nan(a) or has_nan(b)):
+                return 1 if op == "!=" else 0
+            return CSym.arith(self, op, a, b, int_div)
+    tu = cparse.load(rel)
+    sy = NanSym([tu])
+    sizem1 = tm.var("sizem1", "I")
+    sy.hyps = [tm.mk_lt(tm.ONE, sizem1)]
+    try:
+        sy.run("cider_ind_clip", dict(di_g=Ptr(Arr("di_g")), derivi_g=Ptr(Arr("derivi_g")), sizem1=sizem1, ngrids=tm.var("ngrids", "I")))
+    except CUnsupported as e:
+        ctx.undecided("cider_ind_clip under the NaN rule summarised", str(e)[:200], fq)
+        return
+    ctx.assume("IEEE rule used: an ordered comparison one of whose operands is NaN is false (!= is true); arithmetic on NaN gives NaN; (int)NaN is an arbitrary int")
+    for arr in ("di_g", "derivi_g"):
+        ws = [e for e in sy.events if e.kind == "w" and e.arr.name == arr]
+        # the stores that are executed for a NaN element: those whose guards are the loop range only
+        loopg = lambda e: [g for g in e.guards if not any(g is c_ for q in e.qvars for c_ in (tm.mk_le(tm.lift(q[1]), q[0]), tm.mk_lt(q[0], tm.lift(q[2]))))]
+        uncond = [e for e in ws if not loopg(e)]
+        last = uncond[-1] if uncond else None
+        ok = last is not None and last.op == "=" and not has_nan(tm.lift(last.val))
+        ctx.holds("cider_ind_clip: a NaN element of di_g leaves %s[g] with a NaN-free value" % arr, ok,
+                  "no store reaches the element when every comparison with it is false" if last is None else "the value stored last is %s" % tm.show(tm.lift(last.val), 60), fq,
+                  witness={"di_g[g]": "NaN"}, replay=replay_ind_clip_nan())
+    # with a finite element the routine clips into [0, sizem1): value contract in real arithmetic is C02's (cider_ind_clip unit)
+
+
+def replay_ind_clip_nan():
+    def replay(wit):
+        import ctypes
+        from pyvc import native
+        lib = ctypes.CDLL(native.build_libs() + "/libmcider.so")
+        di = np.array([np.nan, -1.0, 0.5, 7.0, 100.0])
+        dd = np.ones_like(di)
+        lib.cider_ind_clip(di.ctypes.data_as(ctypes.c_void_p), dd.ctypes.data_as(ctypes.c_void_p), ctypes.c_int(8), ctypes.c_int(di.size))
+        bad = bool(np.any(~np.isfinite(di)) or np.any(di < 0) or np.any(di >= 8))
+        return {"reproduced": bad, "di_g_after": [float(x) if np.isfinite(x) else str(x) for x in di], "sizem1": 8}
+    return replay
+
+
 def unit_plan_new_guard(ctx):
     """NLDFAuxiliaryPlan.new(**kwargs): a plan derived from a plan that handles out-of-range exponents (by raising, or by the smooth cutoff) handles them
     too — it raises or damps — unless the caller of new() switches the handling off explicitly.  (The constructor clears the raise flag of a smooth-cutoff
@@ -836,7 +896,9 @@ def unit_plan_new_guard(ctx):
         p = make_plan(it, st, 1, nalpha=2, hyps=list(hyps), raise_large_expnt_error=raise_, use_smooth_expnt_cutoff=smooth)
         handled = lambda q: bool(q.fields["_raise_large_expnt_error"]) or bool(q.fields["_use_smooth_expnt_cutoff"])
         ctx.holds("plan(raise=%s, smooth=%s) handles out-of-range exponents" % (raise_, smooth), handled(p), "", fq)
-        for label, kw in (("new()", {}), ("new(coef_order='qg')", {"coef_order": "qg"}), ("new(use_smooth_expnt_cutoff=True)", {"use_smooth_expnt_cutoff": True}), ("new().new()", None)):
+        for label, kw in (("new()", {}), ("new(coef_order='qg')", {"coef_order": "qg"}), ("new(use_smooth_expnt_cutoff=True)", {"use_smooth_expnt_cutoff": True}),
+                          # turning the damping off is not turning the error off: the derived plan must then raise
+                          ("new(use_smooth_expnt_cutoff=False)", {"use_smooth_expnt_cutoff": False}), ("new().new()", None)):
             try:
                 q = it.call_method(it.call_method(p, "new", [], {}), "new", [], {}) if kw is None else it.call_method(p, "new", [], dict(kw))
             except (PyRaise, Unsupported) as e:
@@ -844,10 +906,10 @@ def unit_plan_new_guard(ctx):
                 continue
             ctx.holds("plan(raise=%s, smooth=%s).%s: the derived plan raises on an out-of-range exponent or applies the smooth cutoff" % (raise_, smooth, label), handled(q),
                       "_raise_large_expnt_error=%s, _use_smooth_expnt_cutoff=%s" % (q.fields["_raise_large_expnt_error"], q.fields["_use_smooth_expnt_cutoff"]), fq,
-                      witness={"raise_large_expnt_error": raise_, "use_smooth_expnt_cutoff": smooth, "call": label}, replay=replay_plan_new_guard(raise_, smooth))
+                      witness={"raise_large_expnt_error": raise_, "use_smooth_expnt_cutoff": smooth, "call": label}, replay=replay_plan_new_guard(raise_, smooth, kw))
 
 
-def replay_plan_new_guard(raise_, smooth):
+def replay_plan_new_guard(raise_, smooth, kw=None):
     def replay(wit):
         from pyvc import native
         native.install_shim()
@@ -855,7 +917,7 @@ def replay_plan_new_guard(raise_, smooth):
         from ciderpress.dft.plans import NLDFGaussianPlan
         st = NLDFSettingsVJ("MGGA", [1.0, 0.0, 0.03125], "one", ["se_ar2"], [[2.0, 0.0, 0.04]])
         p = NLDFGaussianPlan(st, 1, 0.01, 1.8, 8, raise_large_expnt_error=raise_, use_smooth_expnt_cutoff=smooth)
-        q = p.new()
+        q = p.new().new() if kw is None else p.new(**kw)
         amax = float(np.max(q.alphas))
         rho = np.array([1e4])
         z = np.array([0.0])
@@ -966,6 +1028,7 @@ def units():
     for v in ("i", "j", "ij", "k"):
         u.append(("nldf-lengths/" + v, unit_nldf_lengths(v)))
     u.append(("plan-new-guard", unit_plan_new_guard))
+    u.append(("ind-clip-nan", unit_ind_clip_nan))
     for kind in ("rbf", "antisym", "spin"):
         u.append(("evaluator-shapes/" + kind, unit_evaluator_shapes(kind)))
     return u
